@@ -74,7 +74,12 @@ UNITS += [
     dict(id='c17.R_.copy', witness=W, recs=M_RECS, opaque=OPAQUE + [r'^ffsm2::detail::C_<'], opaque_keep={'PlanDataT': ['planExists']}, props=['C17', 'C11', 'C18'], consts=CONSTS, ghost=GHOST,
          target=dict(cls=r'^ffsm2::detail::R_<', kind='ctor', name='R_', nparams=1, sig=r'^void \(const ffsm2::detail::R_'),
          calls={'re:^CoreT__cctor': 'contract'},
-         contracts={'@target': dict(requires=[fresh('self'), fresh('_unnamed0')], assigns=['*self'], ensures=copy_ens('self->_core', '_unnamed0->_core')),
+         # ({p0}: the parameter of the defaulted constructor is unnamed; a hand-written one names it)
+         contracts={'@target': dict(requires=[fresh('self'), '{fresh:{p0}}'], assigns=['*self'],
+                                    ensures=copy_ens('self->_core', '{p0}->_core')
+                                    # the state objects (the apex holds the user's state classes with their data members) are copied too:
+                                    # the composite is opaque here, one byte stands for its contents
+                                    + [('C17', 'self->_apex._opaque == {p0}->_apex._opaque')]),
                     '@re:^CoreT__cctor': CORE_COPY}),
     dict(id='c17.RV_.copy', witness=W, recs=M_RECS, opaque=OPAQUE + [r'^ffsm2::detail::C_<'], opaque_keep={'PlanDataT': ['planExists']}, props=['C17', 'C01', 'C18'], consts=CONSTS, ghost=GHOST,
          target=dict(cls=r'^ffsm2::detail::RV_<', kind='ctor', name='RV_', nparams=1, sig=r'^void \(const ffsm2::detail::RV_'),
